@@ -13,6 +13,7 @@ NOT_YET = {
     "C16": ["PFOR, group, Elias, BP128, adaptive, float metadata: monitors + correspondence only so far"],
     "C05": [],
     "C11": [],
+    "C09": ["sorted insert / positional insert / delete / delete-member as refinement of a reference multiset (the shifting loops): checked by the harness against a reference array and by the correspondence, theorem not yet written; get/set isolation, lower-bound search, incr/half are proved"],
     "C12": [],
 }
 out = {}
